@@ -164,3 +164,35 @@ fn install_thread_state() {}
 pub fn n_threads() -> usize {
     std::env::var("VERIF_THREADS").ok().and_then(|s| s.parse().ok()).unwrap_or(12)
 }
+
+
+// ------------------------------------------------------------------------------------------------
+// Allocation meter (C17): per-thread live bytes, peak and largest single request of the code under test.
+pub struct Meter;
+thread_local! {
+    static M_LIVE: std::cell::Cell<usize> = const { std::cell::Cell::new(0) };
+    static M_PEAK: std::cell::Cell<usize> = const { std::cell::Cell::new(0) };
+    static M_MAXREQ: std::cell::Cell<usize> = const { std::cell::Cell::new(0) };
+}
+#[inline]
+fn m_add(n: usize) {
+    let _ = M_LIVE.try_with(|l| { let v = l.get().saturating_add(n); l.set(v); let _ = M_PEAK.try_with(|p| if v > p.get() { p.set(v) }); });
+    let _ = M_MAXREQ.try_with(|m| if n > m.get() { m.set(n) });
+}
+#[inline]
+fn m_sub(n: usize) { let _ = M_LIVE.try_with(|l| l.set(l.get().saturating_sub(n))); }
+unsafe impl std::alloc::GlobalAlloc for Meter {
+    unsafe fn alloc(&self, l: std::alloc::Layout) -> *mut u8 { m_add(l.size()); std::alloc::System.alloc(l) }
+    unsafe fn alloc_zeroed(&self, l: std::alloc::Layout) -> *mut u8 { m_add(l.size()); std::alloc::System.alloc_zeroed(l) }
+    unsafe fn dealloc(&self, p: *mut u8, l: std::alloc::Layout) { m_sub(l.size()); std::alloc::System.dealloc(p, l) }
+    unsafe fn realloc(&self, p: *mut u8, l: std::alloc::Layout, n: usize) -> *mut u8 { m_sub(l.size()); m_add(n); std::alloc::System.realloc(p, l, n) }
+}
+/// Run `f` and return (result, peak bytes above the starting level, largest single request) of this thread.
+pub fn metered<T>(f: impl FnOnce() -> T) -> (T, u64, u64) {
+    let base = M_LIVE.with(|l| l.get());
+    M_PEAK.with(|p| p.set(base));
+    M_MAXREQ.with(|m| m.set(0));
+    let r = f();
+    let peak = M_PEAK.with(|p| p.get()).saturating_sub(base);
+    (r, peak as u64, M_MAXREQ.with(|m| m.get()) as u64)
+}
